@@ -231,6 +231,7 @@ func (s *Service) Update(ctx context.Context, id string, plugin string, data Con
 		s.logger.Warn(ctx).Msgf("connector plugin changing from %v to %v, "+
 			"this may lead to unexpected behavior and configuration issues.", conn.Plugin, plugin)
 	}
+	oldPlugin, oldConfig, oldUpdatedAt := conn.Plugin, conn.Config, conn.UpdatedAt
 	conn.Plugin = plugin
 	conn.Config = data
 	conn.UpdatedAt = time.Now().UTC()
@@ -238,6 +239,8 @@ func (s *Service) Update(ctx context.Context, id string, plugin string, data Con
 	// persist conn
 	err = s.store.Set(ctx, id, conn)
 	if err != nil {
+		// nothing was stored: put the in-memory view back as it was
+		conn.Plugin, conn.Config, conn.UpdatedAt = oldPlugin, oldConfig, oldUpdatedAt
 		return nil, err
 	}
 
@@ -251,12 +254,15 @@ func (s *Service) AddProcessor(ctx context.Context, connectorID string, processo
 		return nil, err
 	}
 
+	oldProcessorIDs, oldUpdatedAt := conn.ProcessorIDs, conn.UpdatedAt
 	conn.ProcessorIDs = append(conn.ProcessorIDs, processorID)
 	conn.UpdatedAt = time.Now().UTC()
 
 	// persist conn
 	err = s.store.Set(ctx, connectorID, conn)
 	if err != nil {
+		// nothing was stored: put the in-memory view back as it was
+		conn.ProcessorIDs, conn.UpdatedAt = oldProcessorIDs, oldUpdatedAt
 		return nil, err
 	}
 
@@ -281,12 +287,16 @@ func (s *Service) RemoveProcessor(ctx context.Context, connectorID string, proce
 		return nil, cerrors.Errorf("%w (ID: %s)", ErrProcessorIDNotFound, processorID)
 	}
 
+	// the removal shifts the IDs in place, keep a copy to restore on failure
+	oldProcessorIDs, oldUpdatedAt := append([]string(nil), conn.ProcessorIDs...), conn.UpdatedAt
 	conn.ProcessorIDs = conn.ProcessorIDs[:processorIndex+copy(conn.ProcessorIDs[processorIndex:], conn.ProcessorIDs[processorIndex+1:])]
 	conn.UpdatedAt = time.Now().UTC()
 
 	// persist conn
 	err = s.store.Set(ctx, connectorID, conn)
 	if err != nil {
+		// nothing was stored: put the in-memory view back as it was
+		conn.ProcessorIDs, conn.UpdatedAt = oldProcessorIDs, oldUpdatedAt
 		return nil, err
 	}
 
@@ -314,10 +324,13 @@ func (s *Service) SetState(ctx context.Context, id string, state any) (*Instance
 		}
 	}
 
+	oldState := conn.State
 	conn.State = state
 
 	err = s.store.Set(ctx, id, conn)
 	if err != nil {
+		// nothing was stored: put the in-memory view back as it was
+		conn.State = oldState
 		return nil, err
 	}
 
